@@ -1,7 +1,7 @@
 (* C12 -- JSON Schema: the samples fence every supported constraint on both sides.
    Local fence lemmas for numeric bounds (a number without multipleOf): the sample emitted just outside a
    bound is rejected by the schema and accepted once that bound is deleted. *)
-From Fences Require Import JsonGen JsonLeaves.
+From Fences Require Import JsonGen JsonLeaves JsonEnum.
 From Coq Require Import ZArith.
 Local Open Scope Z_scope.
 
@@ -24,3 +24,14 @@ Proof.
   - exact (number_bound_fenced_high mn hi H).
 Qed.
 Print Assumptions C12_upper_bound_fenced.
+
+(* enum: every member occurs (up to Python equality of scalars) among the valid leaves, and some non-member among
+   the invalid ones *)
+Theorem C12_enum_fenced : forall en,
+  hashable_all en = true ->
+  (forall m, In m en -> pmem m (enum_valid [] en) = true) /\
+  (exists x, In x (enum_invalid' [] en) /\ pmem x en = false).
+Proof.
+  intros en He. split; [intros m Hm; exact (enum_members_covered en m He Hm)|exact (enum_nonmember_present [] en eq_refl He)].
+Qed.
+Print Assumptions C12_enum_fenced.
